@@ -24,6 +24,8 @@ func init() {
 
 func runC12(p *eng.Prog, r *eng.Report, tier string) {
 	c := &cx{p, r, tier}
+	r17ConfigRefreshedIntoTheSharedVariable(c, "C12.21")
+	r17BindPayloadNamespaced(c, "C12.22")
 	streamInfoResetOnlyOnRestart(c, "C12.18")
 	c12UpdateAddrStores(c, "C12.19")
 	c12FreshRandomness(c, "C12.20")
